@@ -396,3 +396,20 @@ for _pid, _ts in LOOP_THMS.items():
 PROPS["C20"]["streams"] = PROPS["C20"]["streams"] + [{"args": ["ltk"], "shards_quick": 4, "shards_thorough": 8}]
 PROPS["C20"]["ops"] = PROPS["C20"]["ops"] + ["ltk"]
 PROPS["C20"]["rule"] += "; Display and Debug of MsgSigner (empty and pending buffer), LongTermKey and OnlineKey for every seed of the `ltk` stream are scanned with the same patterns"
+
+LOOP2_THMS = {
+    "C19": ["LOOP_call_batches_bounded", "LOOP_polling_exits"],
+    "C08": ["LOOP_polling_exits"],
+    "C18": ["LOOP_distribution_independent"],
+}
+for _pid, _ts in LOOP2_THMS.items():
+    PROPS[_pid]["extra_modules"] = sorted(set(PROPS[_pid].get("extra_modules", []) + ["Rough.Props.Loop2"]))
+    PROPS[_pid]["theorems"] = PROPS[_pid]["theorems"] + ["Rough.Props.Loop2." + t for t in _ts]
+
+# failing sends: the datagrams that DO leave must still be complete valid responses (C02, C09)
+_RESPSEND = {"args": ["respsend"], "shards_quick": 4, "shards_thorough": 8}
+for _pid in ("C02", "C09"):
+    PROPS[_pid]["streams"] = PROPS[_pid]["streams"] + [_RESPSEND]
+    PROPS[_pid]["ops"] = PROPS[_pid]["ops"] + ["respsend"]
+    PROPS[_pid]["rule"] += ("; failing sends: Responder::send_responses on a real socket where some return addresses cannot be sent to (IPv6 address from an IPv4 socket; UDP port 0 of an address "
+                            "that also has reachable requests), patterns none/first/last/middle/all/random: every datagram that arrives must verify (independent Lean verifier) for a distinct request queued for that address")
